@@ -1,4 +1,7 @@
 import NipyVerif.Props.C01
+import NipyVerif.Props.C01B
+import NipyVerif.Props.C01C
+import NipyVerif.Props.C01D
 #print axioms NipyVerif.C01.compose_apply
 #print axioms NipyVerif.C01.composeChain_apply
 #print axioms NipyVerif.C01.compose_refuses
@@ -23,4 +26,20 @@ import NipyVerif.Props.C01
 #print axioms NipyVerif.C01.bcastInto_exact
 #print axioms NipyVerif.C01.append_keeps_rest
 #print axioms NipyVerif.C01.drop_refuses
-#print axioms NipyVerif.C01.drop_keeps_entries_partial
+#print axioms NipyVerif.C01.step_sound
+#print axioms NipyVerif.C01.prog_sound
+#print axioms NipyVerif.C01.prog_sound_apply
+#print axioms NipyVerif.C01.product_apply_blocks_nary
+#print axioms NipyVerif.C01.drop_keeps_rest
+#print axioms NipyVerif.C01.drop_keeps_rest_onesided
+#print axioms NipyVerif.C01.append_then_drop_id
+#print axioms NipyVerif.C01.equivalent_sound
+#print axioms NipyVerif.C01.from_start_step_apply
+#print axioms NipyVerif.C01.identity_apply
+#print axioms NipyVerif.C01.canCast_preorder
+#print axioms NipyVerif.C01.safe_dtype_upper
+#print axioms NipyVerif.C01.mkAff_dtype
+#print axioms NipyVerif.C01.call_gate
+#print axioms NipyVerif.C01.cstep_sound
+#print axioms NipyVerif.C01.cprog_sound
+#print axioms NipyVerif.C01.mkGeneral_wf
